@@ -28,12 +28,59 @@ pub open spec fn value_ok(ft: FatType, cluster: u32, v: FatValue) -> bool {
 pub open spec fn no_free_in(ft: FatType, s: Seq<u8>, lo: int, hi: int) -> bool {
     forall|k: int| lo <= k < hi ==> ent(ft, s, k) != 0
 }
+
+pub open spec fn bits(ft: FatType) -> int {
+    match ft {
+        FatType::Fat12 => 12,
+        FatType::Fat16 => 16,
+        FatType::Fat32 => 32,
+    }
+}
+
+/// number of entries of a table of bytes_per_fat bytes
+pub open spec fn nent(ft: FatType, bytes_per_fat: u64) -> int {
+    (bytes_per_fat as int * 8) / bits(ft)
+}
+
+pub open spec fn all_zero(s: Seq<u8>) -> bool {
+    forall|i: int| 0 <= i < s.len() ==> s[i] == 0
+}
 } // mod spec
+
+pub mod lemmas_alloc {
+    use vstd::prelude::*;
+    use super::*;
+    use super::spec::*;
+
+    /// a write confined to the bytes of the two reserved leading entries leaves every cluster entry (k >= 2) as it was
+    pub broadcast proof fn lemma_header_write(ft: FatType, a: Seq<u8>, b: Seq<u8>, p: int, n: int, k: int)
+        requires
+            #[trigger] same_outside(a, b, p, n),
+            0 <= p,
+            p + n <= (match ft { FatType::Fat12 => 3int, FatType::Fat16 => 4int, FatType::Fat32 => 8int }),
+            k >= 2,
+            fits(ft, b, k),
+        ensures
+            #[trigger] ent(ft, a, k) == ent(ft, b, k),
+            fits(ft, a, k),
+    {
+        match ft {
+            FatType::Fat12 => {
+                assert(off12(k) >= 3);
+            }
+            FatType::Fat16 => {}
+            FatType::Fat32 => {}
+        }
+    }
+}
 
 pub mod code {
 use vstd::prelude::*;
 use super::*;
 use super::spec::*;
+use super::lemmas_alloc;
+
+broadcast use lemmas_alloc::lemma_header_write;
 
 //@stub unit=table_fat12 fn=fat12_get
 //@stub unit=table_fat12 fn=fat12_set
@@ -180,6 +227,43 @@ use super::spec::*;
                 && r->Ok_0.dirty == (raw32(old(fat).bytes(), 1) & (1u32 << 27) == 0)
                 && r->Ok_0.io_error == (raw32(old(fat).bytes(), 1) & (1u32 << 26) == 0),
         }),
+//@endextract
+
+// @obl props=C03,C06,C10 tier=quick fns=format_fat
+// @desc format_fat on a zeroed table of ANY size whose entry count stays below the FAT32 special range: Ok => every cluster entry [2, total+2) is FREE, every padding entry [total+2, number of entries) is end-of-chain (never handed out), both loops terminate; errors are stream errors. (Entries 0 and 1: Kani obligation format_fat_reserved_entries.)
+//@extract file=src/table.rs fn=format_fat as=format_fat
+//@generics <S: Stream<E>, E>
+//@spec
+    requires
+        old(fat).pos() == 0,
+        old(fat).bytes().len() == bytes_per_fat,
+        // the table has been zeroed by the caller (format_volume): every cluster entry reads as free
+        forall|k: int| 2 <= k < total_clusters + 2 ==> fits(fat_type, old(fat).bytes(), k) && ent(fat_type, old(fat).bytes(), k) == 0,
+        total_ok(fat_type, total_clusters),
+        bytes_per_fat >= 16,
+        nent(fat_type, bytes_per_fat) <= 0x0FFF_FFF0,
+        total_clusters + 2 <= nent(fat_type, bytes_per_fat),
+    ensures
+        r is Err ==> is_stream_err(r->Err_0),
+        r is Ok ==> final(fat).bytes().len() == old(fat).bytes().len()
+            && (forall|k: int| 2 <= k < total_clusters + 2 ==> ent(fat_type, final(fat).bytes(), k) == 0)
+            && (forall|k: int| total_clusters + 2 <= k < nent(fat_type, bytes_per_fat)
+                ==> ent(fat_type, final(fat).bytes(), k) == enc(fat_type, FatValue::EndOfChain)),
+//@loop 0
+        invariant
+            start_cluster == total_clusters + 2,
+            end_cluster as int == nent(fat_type, bytes_per_fat),
+            end_cluster <= 0x0FFF_FFF0,
+            total_ok(fat_type, total_clusters),
+            fat.bytes().len() == old(fat).bytes().len(),
+            fat.bytes().len() == bytes_per_fat,
+            forall|k: int| 2 <= k < total_clusters + 2 ==> ent(fat_type, fat.bytes(), k) == 0,
+            forall|k: int| start_cluster <= k < cluster ==> ent(fat_type, fat.bytes(), k) == enc(fat_type, FatValue::EndOfChain),
+//@loop 1
+        invariant
+            end_bad_cluster <= 0x1000_0000,
+            fat.bytes().len() == old(fat).bytes().len(),
+            end_cluster > 0x0FFF_FFF0,
 //@endextract
 
 } // mod code
